@@ -344,16 +344,14 @@ package transport
 //@   at `errcode.GetErrorKind(errs)` ghost k = callres0
 //@   ensures k == errcode.KindProtocol ==> res0 == 422
 //@   ensures k != errcode.KindProtocol ==> res0 == 200
-//@   nopanic
-//@   pure
+//@   modifies nothing
 //@ func statusForGraphQLResponse [C09]
 //@   ghost k = 0
 //@   at `errcode.GetErrorKind(errs)` requires arg0 == errs
 //@   at `errcode.GetErrorKind(errs)` ghost k = callres0
 //@   ensures k == errcode.KindProtocol ==> res0 == 400
 //@   ensures k != errcode.KindProtocol ==> res0 == 200
-//@   nopanic
-//@   pure
+//@   modifies nothing
 //@ trusted strings.TrimSpace(s) (r)
 //@   nopanic
 //@   pure
